@@ -76,9 +76,12 @@ const (
 	delivered outcome = iota // consumed; the handler is back at ReadMsg
 	dropped                  // the per-peer Run returned (peer dropped)
 	stalled                  // generous deadline passed (inconclusive)
+	blocked                  // the handler is structurally blocked (see stall_test.go); ep.wedged has the verdict
 )
 
-func (o outcome) String() string { return [...]string{"handled", "peer dropped", "no progress"}[o] }
+func (o outcome) String() string {
+	return [...]string{"handled", "peer dropped", "no progress", "MESSAGE LOOP BLOCKED"}[o]
+}
 
 type endpoint struct {
 	name   string
@@ -99,6 +102,13 @@ type endpoint struct {
 	rdone  chan struct{}
 	last   atomic.Value // description of the last message written on this connection
 	told   bool         // a panic of this connection's handler was reported
+
+	gid       int64         // goroutine id of the protocol function (the peer's message loop)
+	claimTD   uint64        // the most this connection has claimed to have (status TD, announced momentum heights)
+	noSync    func() bool   // rule clause 4: no sync cycle can start (set by the session; nil = unknown = never decide for the downloader)
+	wedged    *blockVerdict // verdict of the stall classifier for this connection's handler
+	wedgeTold bool
+	whyNot    string // why the last stalled wait was not classified as blocked
 }
 
 var peerSeq uint64
@@ -139,6 +149,7 @@ func connect(pm *protocol.ProtocolManager, name string, tag byte, withReqs bool)
 			_ = app.Close() // the connection goes away with the protocol, as in Peer.run
 			close(ep.done)
 		}()
+		atomic.StoreInt64(&ep.gid, curGoroutineID())
 		ep.res.err = run(peer, ep.app)
 	}()
 	go func() { // what Peer.run does on a local disconnect request: close the connection
@@ -212,28 +223,48 @@ func (ep *endpoint) deliver(code uint64, size uint32, payload io.Reader, descr s
 	if ep.gone() {
 		return dropped
 	}
+	if ep.wedged != nil {
+		return blocked
+	}
 	ep.last.Store(descr)
 	e0 := atomic.LoadInt64(&ep.app.entries)
 	werr := make(chan error, 1)
 	go func() { werr <- ep.net.WriteMsg(p2p.Msg{Code: code, Size: size, Payload: payload}) }()
 	t := time.NewTimer(liveDeadline)
 	defer t.Stop()
-	select {
-	case <-werr:
-	case <-ep.done:
-		return dropped
-	case <-t.C:
-		return stalled
-	}
+	// while the delivery does not come back the stall classifier looks at the handler (stall_test.go)
+	probe := &blockProbe{gid: atomic.LoadInt64(&ep.gid), noSync: ep.noSync}
+	look := time.NewTimer(blockFirst)
+	defer look.Stop()
+	written := false
 	for {
-		if atomic.LoadInt64(&ep.app.entries) > e0 {
+		if written && atomic.LoadInt64(&ep.app.entries) > e0 {
 			return delivered
 		}
+		var wch chan error
+		if !written {
+			wch = werr
+		}
 		select {
+		case <-wch:
+			written = true
 		case <-ep.app.sig:
 		case <-ep.done:
 			return dropped
+		case <-look.C:
+			if v := probe.sample(); v != nil {
+				ep.wedged = v
+				noteVerdict()
+				return blocked
+			}
+			look.Reset(blockGap)
 		case <-t.C:
+			if v := probe.classifyNow(); v != nil {
+				ep.wedged = v
+				noteVerdict()
+				return blocked
+			}
+			ep.whyNot = probe.why
 			return stalled
 		}
 	}
@@ -332,6 +363,8 @@ type session struct {
 	validSet map[uint64]bool     // heights of A whose momentum (header) was handed to the node unmodified
 	goodBlk  map[types.Hash]bool // account blocks of A handed to the node unmodified
 	tr       []string
+	hist     []string
+	epMu     sync.Mutex
 	trace    bool
 	respMu   sync.Mutex
 	respLog  []string
@@ -358,8 +391,61 @@ func (s *session) hashAt(h uint64) types.Hash { return s.sh.hashes[h] }
 
 func (s *session) note(format string, args ...interface{}) {
 	s.c.Note(format, args...)
+	line := fmt.Sprintf(format, args...)
+	if len(s.hist) < 80 {
+		s.hist = append(s.hist, trim(line, 300))
+	}
 	if traceClass != "" {
-		s.tr = append(s.tr, fmt.Sprintf(format, args...))
+		s.tr = append(s.tr, line)
+	}
+}
+
+// addEp registers a connection of this session (the stall rule reads the list from other goroutines).
+func (s *session) addEp(ep *endpoint) {
+	ep.noSync = s.noSyncPossible
+	s.epMu.Lock()
+	s.addEp(ep)
+	s.epMu.Unlock()
+}
+
+// noSyncPossible is the second part of clause 4 of the stall rule (stall_test.go): every connection
+// that is still open has claimed at most the node's current height, so the syncer's periodic tick
+// cannot start a synchronisation cycle.
+func (s *session) noSyncPossible() bool {
+	h := s.node.Height()
+	s.epMu.Lock()
+	defer s.epMu.Unlock()
+	for _, ep := range s.eps {
+		if !ep.gone() && atomic.LoadUint64(&ep.claimTD) > h {
+			return false
+		}
+	}
+	return true
+}
+
+// blockedFail reports the verdict of the stall classifier for ep (once).
+func (s *session) blockedFail(ep *endpoint, descr string) {
+	v := ep.wedged
+	if v == nil || ep.wedgeTold {
+		return
+	}
+	ep.wedgeTold = true
+	s.c.Class("message-loop-blocked")
+	s.note("  -> MESSAGE LOOP BLOCKED: handler of %s parked in %s [%s], nobody can release it", ep.name, v.fn, v.state)
+	s.c.Failf("C15/message-loop-blocked/"+v.fn,
+		"the message loop of peer %q is blocked for good after %s: its handler is parked in %s [%s] below handleMsg (same stack in %d samples >= %v apart) and no goroutine exists that could release it (and no connected peer claims more than the node has, so no synchronisation can start).\nsession so far:\n  %s\nhandler:\n%s\nprotocol goroutines:\n%s",
+		ep.name, descr, v.fn, v.state, v.samples, blockGap, strings.Join(s.hist, "\n  "), trim(v.stack, 2500), v.dump)
+}
+
+// unreportedBlocks: verdicts reached while the responder (not the main flow) was writing
+func (s *session) unreportedBlocks() {
+	s.epMu.Lock()
+	eps := append([]*endpoint(nil), s.eps...)
+	s.epMu.Unlock()
+	for _, ep := range eps {
+		if ep.wedged != nil && !ep.wedgeTold {
+			s.blockedFail(ep, ep.lastDescr())
+		}
 	}
 }
 
@@ -448,9 +534,14 @@ func (s *session) panicKey(code uint64, shape string, stack string) string {
 // afterDeliver inspects the result of one delivery. It returns false if the session must end.
 func (s *session) afterDeliver(ep *endpoint, o outcome, code uint64, shape, descr string) bool {
 	c := s.c
+	if o == blocked {
+		s.aborted = true
+		s.blockedFail(ep, descr)
+		return false
+	}
 	if o == stalled {
 		s.aborted = true
-		inconclusive(c, fmt.Sprintf("no progress within %v after %s", liveDeadline, descr), dumpAll())
+		inconclusive(c, fmt.Sprintf("no progress within %v after %s (not classified as blocked: %s)", liveDeadline, descr, ep.whyNot), dumpAll())
 		return false
 	}
 	if o == dropped && ep.res.panicked && !ep.told {
@@ -1366,7 +1457,7 @@ var answered int64
 func (s *session) connectHonest() bool {
 	c := s.c
 	ep, ok := connect(s.pm, "honest", 0xAA, false)
-	s.eps = append(s.eps, ep)
+	s.addEp(ep)
 	if !ok {
 		s.aborted = true
 		inconclusive(c, "honest peer: protocol function did not reach its first read", dumpAll())
@@ -1806,7 +1897,7 @@ func (s *session) hostConnect(kind string) bool {
 	c := s.c
 	s.stopResponder()
 	ep, ok := connect(s.pm, "hostile", 0xEE, !s.onA)
-	s.eps = append(s.eps, ep)
+	s.addEp(ep)
 	s.host = ep
 	if !ok {
 		s.aborted = true
